@@ -243,12 +243,21 @@ def configs(thorough):
             for cont in CONTAINERS:
                 for pl in policy_placements():
                     for method in (("GET", "POST") if thorough else ("GET",)):
-                        out.append(("M", client, sp, cont, pl, method))
+                        out.append(("M", client, sp, cont, pl, method, 0))
+        # the same chains when the FIRST attempt of the first request dies after it was received and the retried
+        # attempt gets the redirect (GET: the retry is legitimate): stripping must not depend on which attempt it was
+        for cont in ("dict", "mgr+req"):
+            for pl in policy_placements()[:3]:
+                out.append(("M", client, "canonical", cont, pl, "GET", 1))
     for client in ("HTTPConnectionPool", "ManagerPool"):
         for sp in SPELLINGS:
             for cont in CONTAINERS:
                 for start in ("had", "sad"):
-                    out.append(("P", client, sp, cont, (NOT_GIVEN, NOT_GIVEN), "GET", start))
+                    out.append(("P", client, sp, cont, (NOT_GIVEN, NOT_GIVEN), "GET", start, 0))
+        # ... and when the first attempt dies after the request was received: the retried attempt's redirect
+        # must be refused all the same
+        for start in ("had", "sad"):
+            out.append(("P", client, "canonical", "dict", (NOT_GIVEN, NOT_GIVEN), "GET", start, 1))
     return out
 
 
@@ -273,6 +282,7 @@ def make_case(cfg, hops):
     kind, client, sp, cont, pl, method = cfg[:6]
     post = method == "POST"
     return {"client": client, "start": cfg[6] if kind == "P" else "had", "hops": hops, "mode": "c", "method": method,
+            "break_first": cfg[6] if kind == "M" else cfg[7],
             "body": b"payload" if post else None, "headers": header_list(sp, cont, post), "header_container": cont,
             "spelling": sp, "req_policy": pl[0], "ctor_policy": pl[1], "redirect_kw": NOT_GIVEN}
 
